@@ -21,10 +21,52 @@ class ProbeError(Exception):
     pass
 
 
+MONITOR_ERRORS = []      # failures of the monitors themselves (never of the code under test): reported as INCONCLUSIVE
+
+
+def _adapt(cond, fn, label, default=True):
+    """Bind a condition to the real callable *by position* and guard it.
+
+    icontract passes arguments to conditions by name.  The conditions in props/*.py are written with the parameter
+    names the package uses today; if a parameter of the package is renamed (a behaviour-preserving refactor: all
+    callers are positional) a name-bound condition would make icontract raise inside the observed call, which would
+    then look like a failure of the code under test.  So an adapter is generated whose parameter names are taken
+    from the *real* signature (position i of the condition <-> position i of the function), and which never lets an
+    exception of the monitor escape: monitor failures are recorded in MONITOR_ERRORS and make the run inconclusive."""
+    import inspect
+    cparams = list(inspect.signature(cond).parameters)
+    special = [p for p in cparams if p in ('OLD', 'result')]
+    k = len(cparams) - len(special)
+    rparams = [p.name for p in inspect.signature(fn).parameters.values()
+               if p.kind in (p.POSITIONAL_ONLY, p.POSITIONAL_OR_KEYWORD)]
+    if k > len(rparams) or any(n in ('OLD', 'result') for n in rparams[:k]):
+        MONITOR_ERRORS.append('%s: cannot bind monitor (%d leading parameters needed, callable has %r)' % (label, k, rparams))
+        return None
+    names = rparams[:k] + special
+    # call the condition in its own parameter order (OLD/result wherever it declared them)
+    callargs = []
+    lead = iter(rparams[:k])
+    for p in cparams:
+        callargs.append(p if p in ('OLD', 'result') else next(lead))
+    src = 'def _adapter(%s):\n    return _guard(_cond, _label, _default, (%s,))\n' % (', '.join(names), ', '.join(callargs))
+
+    def _guard(c, lab, dflt, vals):
+        try:
+            return c(*vals)
+        except Exception as exc:      # a failure of the monitor, not of the code under test
+            if len(MONITOR_ERRORS) < 20:
+                import traceback
+                MONITOR_ERRORS.append('%s: monitor raised %s: %s | %s' % (lab, type(exc).__name__, exc, traceback.format_exc()[-400:]))
+            return dflt
+    ns = {'_guard': _guard, '_cond': cond, '_label': label, '_default': default}
+    exec(src, ns)
+    return ns['_adapter']
+
+
 def attach(owner, name, ensure=None, snapshot=None, require=None, also=()):
     """Replace owner.<name> by a contract-checked callable.
 
-    ensure(…, result[, OLD])   post-condition (argument names must match the function's)
+    ensure(…, result[, OLD])   post-condition (leading parameters correspond by position to the function's)
     snapshot(…)                captured before the call, available as OLD.S
     require(…)                 pre-condition
     also                       other namespaces (modules) that imported the function by name
@@ -36,13 +78,27 @@ def attach(owner, name, ensure=None, snapshot=None, require=None, also=()):
         kind, fn = classmethod, raw.__func__
     elif isinstance(raw, staticmethod):
         kind, fn = staticmethod, raw.__func__
+    label = '%s.%s' % (getattr(owner, '__name__', owner), name)
     wrapped = fn
-    if ensure is not None:
-        wrapped = icontract.ensure(ensure, error=ProbeError)(wrapped)
-    if snapshot is not None:
-        wrapped = icontract.snapshot(snapshot, name='S')(wrapped)
-    if require is not None:
-        wrapped = icontract.require(require, error=ProbeError)(wrapped)
+    try:
+        if ensure is not None:
+            c = _adapt(ensure, fn, label + ':ensure')
+            if c is None:
+                return raw
+            wrapped = icontract.ensure(c, error=ProbeError)(wrapped)
+        if snapshot is not None:
+            c = _adapt(snapshot, fn, label + ':snapshot', default=None)
+            if c is None:
+                return raw
+            wrapped = icontract.snapshot(c, name='S')(wrapped)
+        if require is not None:
+            c = _adapt(require, fn, label + ':require')
+            if c is None:
+                return raw
+            wrapped = icontract.require(c, error=ProbeError)(wrapped)
+    except Exception as exc:
+        MONITOR_ERRORS.append('%s: could not attach monitor: %r' % (label, exc))
+        return raw
     new = kind(wrapped) if kind else wrapped
     setattr(owner, name, new)
     for ns in also:
